@@ -131,6 +131,14 @@ def _process_get_key_result(
     return GetKey.unpack_response(raw_resp)
 
 
+def _require_auth_protocol(auth_protocol: t.Optional[str]) -> None:
+    # An empty protocol makes create_rpc_connection open an unauthenticated
+    # connection. The GetKey exchange must be sealed by a security context,
+    # otherwise anyone on the path can supply the group key.
+    if not auth_protocol:
+        raise ValueError("An authentication protocol is required to retrieve the group key from the server")
+
+
 async def _async_get_key(
     server: str,
     target_sd: bytes,
@@ -142,6 +150,8 @@ async def _async_get_key(
     password: t.Optional[str] = None,
     auth_protocol: str = "negotiate",
 ) -> GroupKeyEnvelope:
+    _require_auth_protocol(auth_protocol)
+
     rpc = await async_create_rpc_connection(server)
     async with rpc:
         context_id = _EPM_CONTEXTS[0].context_id
@@ -185,6 +195,8 @@ def _sync_get_key(
     password: t.Optional[str] = None,
     auth_protocol: str = "negotiate",
 ) -> GroupKeyEnvelope:
+    _require_auth_protocol(auth_protocol)
+
     with create_rpc_connection(server) as rpc:
         context_id = _EPM_CONTEXTS[0].context_id
         ack = rpc.bind(contexts=_EPM_CONTEXTS)
